@@ -55,7 +55,7 @@ class ErrorHandler:
             context: ANTLR Context object (lines and column will be used from this if not None)
             syntax_error: A boolean indicating whether the error is a syntax error or not.
         """
-        if context:
+        if context and context.start:
             line = context.start.line
             column = context.start.column - 1
             off_symbol_length = len(context.start.text)
